@@ -52,26 +52,25 @@ impl DictionaryAccess for WrapDict {
 }
 
 pub fn run(args: &Args) {
+    use sudachi::dic::subset::InfoSubset;
     let res = prepare_resources(&args.work);
     let cfg = config_json(&res, "");
-    let mut rng = Rng::new(1);
-    let lx = gen_lexica(&mut rng, false);
-    let d = build_dict(&lx.csv(0), &[], &cfg).unwrap();
-    let wd = Rc::new(WrapDict { inner: d, prw: vec![Box::new(FailingRewrite)] });
-    let mut tok = StatefulTokenizer::new(wd.clone(), Mode::C);
-    let mut list = MorphemeList::empty(wd.clone());
-    for t in ["ab", "a!b", "", "ab"] {
-        tok.reset().push_str(t);
-        let r = tok.do_tokenize();
-        println!("{:?}: do_tokenize -> {:?}", t, r.as_ref().map_err(|e| e.to_string()));
-        if r.is_ok() {
-            let c = catch(|| list.collect_results(&mut tok).map_err(|e| e.to_string()));
-            println!("   collect -> {:?}, len {}", c, list.len());
-        }
-    }
-    let mut fresh = StatefulTokenizer::new(wd.clone(), Mode::C);
-    fresh.reset().push_str("");
-    println!("fresh \"\": {:?}", fresh.do_tokenize().map_err(|e| e.to_string()));
-    let mut l2 = MorphemeList::empty(wd.clone());
-    println!("fresh collect: {:?} len {}", l2.collect_results(&mut fresh).map_err(|e| e.to_string()), l2.len());
+    let csv = "ab,0,0,1000,ab,名詞,普通名詞,一般,*,*,*,ヨ,ab,*,C,1/2,1/2,*,*\na,-1,0,1000,a,名詞,普通名詞,一般,*,*,*,ヨ,a,*,A,*,*,*,*\nb,-1,0,1000,b,名詞,普通名詞,一般,*,*,*,ヨ,b,*,A,*,*,*,*\n";
+    let d = Rc::new(build_dict(csv, &[], &cfg).unwrap());
+    let show = |tok: &mut StatefulTokenizer<Rc<JapaneseDictionary>>| {
+        tok.reset().push_str("ab");
+        tok.do_tokenize().unwrap();
+        let mut l = MorphemeList::empty(d.clone());
+        l.collect_results(tok).unwrap();
+        println!("   subset {:?}: {:?}", l.subset(), l.iter().map(|m| (m.begin(), m.end(), m.word_id().as_raw())).collect::<Vec<_>>());
+    };
+    let mut t1 = StatefulTokenizer::new(d.clone(), Mode::C);
+    t1.set_subset(InfoSubset::POS_ID);
+    t1.set_mode(Mode::A);
+    println!("history: new(C); set_subset(POS_ID); set_mode(A)");
+    show(&mut t1);
+    let mut t2 = StatefulTokenizer::new(d.clone(), Mode::A);
+    t2.set_subset(InfoSubset::POS_ID);
+    println!("fresh: new(A); set_subset(POS_ID)");
+    show(&mut t2);
 }
